@@ -1,6 +1,8 @@
 package main
 
 import (
+	"runtime"
+	"bytes"
 	"fmt"
 	"seata.apache.org/seata-go/pkg/protocol/branch"
 	"sort"
@@ -448,6 +450,41 @@ func runC13(c *Ctx) {
 		emitFeed(cid, fs, [][]byte{stream[:cut], stream[cut:]}, true, len(stream))
 		c.Out.Count("big-frames")
 	}
+	// (d0) a well-formed frame whose BODY declares a field of almost 4 GiB: the reader allocates what is there, not
+	// what is declared (a process that runs out of memory does not panic, it dies)
+	for i, declared := range []uint32{0xFFFFFFF0, 0x80000000, 0x10000000} {
+		cid := fmt.Sprintf("alloc-%d", i)
+		if !c.Want(cid) {
+			continue
+		}
+		marker := []byte("xyxyxyxyxyxyxyxy")
+		msg := message.RpcMessage{ID: 77, Type: message.GettyRequestTypeRequestSync, Codec: byte(codec.CodecTypeSeata),
+			Body: message.BranchCommitRequest{AbstractBranchEndRequest: message.AbstractBranchEndRequest{Xid: "10.0.0.1:8091:1", BranchId: 5, ResourceId: "r", ApplicationData: marker}}}
+		frame, err := h.Write(nil, msg)
+		at := bytes.Index(frame, marker)
+		if err != nil || at < 4 {
+			c.Out.Case(cid, "C13", "skip", "skip")
+			c.Out.Oracle(cid, false, "setup", fmt.Sprint(err, at))
+			continue
+		}
+		frame = append([]byte{}, frame...)
+		frame[at-4], frame[at-3], frame[at-2], frame[at-1] = byte(declared>>24), byte(declared>>16), byte(declared>>8), byte(declared)
+		var m0, m1 runtime.MemStats
+		runtime.ReadMemStats(&m0)
+		crash := safeCall(func() { (&sgetty.RpcPackageHandler{}).Read(nil, frame) })
+		runtime.ReadMemStats(&m1)
+		grown := (m1.TotalAlloc - m0.TotalAlloc) >> 20
+		c.Out.Case(cid, "C13", "skip", "skip")
+		class := ""
+		if crash != "" {
+			class = "crash"
+		} else if grown > 64 {
+			class = "allocates_what_a_length_prefix_declares"
+		}
+		c.Out.Oracle(cid, class == "", class, fmt.Sprintf("a %d-byte frame declaring a field of %d bytes: %d MiB allocated while reading it %s", len(frame), declared, grown, crash))
+		c.Out.Tag(cid, "nontrivial=1")
+		c.Out.Count("declared-length")
+	}
 	// (d) arbitrary non-frame bytes
 	for i := 0; i < nGarbage; i++ {
 		r := rng.Fork()
@@ -472,10 +509,12 @@ func runC13(c *Ctx) {
 				var pos int
 				if shape == 2 {
 					pos = r.Intn(16)
+				} else if shape == 4 {
+					// anywhere, the message BODY included (a mutated length prefix there declares up to 4 GiB: the
+					// codecs read what is there, see the alloc-* cases)
+					pos = r.Intn(len(stream))
 				} else {
-					// header and head map of the first frame only: a mutated length prefix inside a message
-					// BODY makes the codec allocate up to 4 GiB (ReadString32Length trusts the prefix), which
-					// is outside this property and would only slow the check down
+					// header and head map of the first frame only
 					hl := 16
 					if len(stream) >= 9 {
 						hl = int(stream[7])<<8 | int(stream[8])
